@@ -6,6 +6,7 @@ package xrun
 import (
 	"encoding/json"
 	"fmt"
+	"os"
 	"sort"
 	"strings"
 	"time"
@@ -85,6 +86,7 @@ func Explore(r *ev.Run, name string, o Opts) *ev.Part {
 	part := &ev.Part{Name: name, Engine: "E3", Exhaustive: true}
 	outcomes := map[string]int64{}
 	maxSteps := 0
+	var diverged int64
 	queue := []explore.Node{{}}
 	for len(queue) > 0 {
 		if r.Expired() {
@@ -121,7 +123,15 @@ func Explore(r *ev.Run, name string, o Opts) *ev.Part {
 			}
 			for k, v := range res.Stats.Outcomes {
 				if strings.HasPrefix(k, "DIVERGED") {
-					ev.Fatal("replay divergence in %s: %s", name, k)
+					// the implementation did not repeat its own behaviour under the same schedule, three times in a
+					// row: the subtree below that prefix stays unexplored and the part is not exhaustive
+					diverged += v
+					part.Exhaustive = false
+					if diverged == v {
+						fmt.Fprintf(os.Stderr, "WARNING: %s: persistent replay divergence (subtree left unexplored): %s\n", name, k)
+						part.Note = "persistent replay divergence, subtree unexplored: " + k
+					}
+					continue
 				}
 				outcomes[k] += v
 			}
@@ -147,6 +157,9 @@ func Explore(r *ev.Run, name string, o Opts) *ev.Part {
 	part.States = int64(len(outcomes))
 	part.Distinct = int64(len(outcomes))
 	part.Bound = fmt.Sprintf("deviation bound %d completed=%v; longest execution %d steps; outcomes {%s}; param %s", o.Bound, part.Exhaustive, maxSteps, strings.Join(ks, " "), pj)
+	if diverged > 0 {
+		part.Bound += fmt.Sprintf("; %d prefixes diverged persistently on replay and were left unexplored", diverged)
+	}
 	r.AddPart(part)
 	return part
 }
